@@ -55,6 +55,8 @@ func runC03(c *Ctx) {
 	// a restarted validator finds its own votes of the height again (WAL search and replay), or it signs a second time
 	searchRules(c)
 	replayRules(c)
+	// block sync commits too: the block it saves and applies is the one the verified commit names (C01)
+	blockSyncRules(c)
 
 	P := c.P
 	stPropose := P.Const("consensus/types", "RoundStepPropose")
@@ -88,10 +90,6 @@ func runC03(c *Ctx) {
 	c.OnlyWrittenIn("consensus/types", "RoundState", "Round", 1, `^`+csT+`\.updateRoundStep$`, `^consensus\.NewConsensusState$`)
 	c.OnlyWrittenIn("consensus/types", "RoundState", "Height", 1, `^`+csT+`\.updateHeight$`)
 	c.OnlyCalledFrom("updateHeight only from updateToState", `^`+csT+`\.updateHeight$`, 1, `^`+csT+`\.updateToState$`)
-	lockWriters := []string{`^` + csT + `\.(updateToState|enterPrecommit|addVote)$`}
-	c.OnlyWrittenIn("consensus/types", "RoundState", "LockedRound", 3, lockWriters...)
-	c.OnlyWrittenIn("consensus/types", "RoundState", "LockedBlock", 3, lockWriters...)
-	c.OnlyWrittenIn("consensus/types", "RoundState", "LockedBlockParts", 3, lockWriters...)
 
 	// ---- step guards ---------------------------------------------------------------------------
 	type ent struct {
@@ -221,10 +219,22 @@ func runC03(c *Ctx) {
 
 // lockRules: prevote the lock, precommit only on a polka, unlock only on a later polka (shared by C01 and C03).
 func lockRules(c *Ctx) {
+	// the lock changes only where the rules change it: a new height, a precommit decision, a later polka seen in addVote
+	lockWriters := []string{`^` + csT + `\.(updateToState|enterPrecommit|addVote)$`}
+	c.OnlyWrittenIn("consensus/types", "RoundState", "LockedRound", 3, lockWriters...)
+	c.OnlyWrittenIn("consensus/types", "RoundState", "LockedBlock", 3, lockWriters...)
+	c.OnlyWrittenIn("consensus/types", "RoundState", "LockedBlockParts", 3, lockWriters...)
 	tPrevote := c.P.Const("proto/kardiachain/types", "PrevoteType")
 	tPrecommit := c.P.Const("proto/kardiachain/types", "PrecommitType")
 	deferSel := func(in ssa.Instruction) bool { _, ok := in.(*ssa.Defer); return ok }
 	_ = deferSel
+	// a second updateToState for the height already running (block sync handing over late) leaves the height's votes,
+	// round and lock alone: the reset happens only for a state further than ours
+	if fn := c.Fn("consensus", "ConsensusState", "updateToState"); fn != nil {
+		reset := Or(CallTo(`^`+csT+`\.(updateHeight|updateRoundStep)$`, ""), StoreTo(`^&cs\.RoundState\.(Votes|LockedRound|LockedBlock|LockedBlockParts|ValidRound|ValidBlock|Proposal|ProposalBlock)$`))
+		c.Guarded(fn, "reset the height's round state", reset,
+			G("our state is empty, or the new state is further than ours", True(`\.IsEmpty\(cs\.state\)$`), Cmp(`^state\.LastBlockHeight$`, ">", `^cs\.state\.LastBlockHeight$`)))
+	}
 	// ---- doPrevote ---------------------------------------------------------------------------------
 	if fn := c.Fn("consensus", "ConsensusState", "doPrevote"); fn != nil {
 		sign := CallTo(csT+`\.signAddVote$`, "")
